@@ -68,13 +68,14 @@ def _copy(d):
 
 
 CATALOGUE = None
-SHARED = {"pm": None}
+SHARED = {"pm": None, "plan": None, "step": None, "ctx": None, "sink": None, "configs": {}}
+SEEDS = {1: 5, 2: 5 + 2 ** 32}          # gradient seeds used for the model's seeds 1 and 2 (differ only above bit 32)
 
 
 def run_once(cfg, seed, reuse, label):
     cfg = _copy(cfg)
     seedfree = cfg.pop("_seedfree", False)
-    cfg["gradient"]["seed"] = seed
+    cfg["gradient"]["seed"] = SEEDS.get(seed, seed)
     h, hp = hashlib.sha256(), hashlib.sha256()
     state = {"n": 0, "pert": False}
 
@@ -102,15 +103,26 @@ def run_once(cfg, seed, reuse, label):
                 h.update(r.gradients.weighted_objective.tobytes())
 
     if reuse:
+        # everything that can be re-used is re-used: plug-in manager, context, plan, step object and the validated
+        # configuration object of an earlier identical run
         if SHARED["pm"] is None:
             SHARED["pm"] = PluginManager()
-        pm = SHARED["pm"]
+            SHARED["sink"] = {"evaluator": None, "finished": None}
+            sink = SHARED["sink"]
+            SHARED["ctx"] = OptimizerContext(evaluator=lambda v, c: sink["evaluator"](v, c), plugin_manager=SHARED["pm"])
+            SHARED["ctx"].add_observer(EventType.FINISHED_EVALUATION, lambda e: sink["finished"](e))
+            SHARED["plan"] = Plan(SHARED["ctx"])
+            SHARED["step"] = SHARED["plan"].add_step("optimizer")
+        SHARED["sink"]["evaluator"], SHARED["sink"]["finished"] = evaluator, finished
+        key = repr(cfg)
+        if key not in SHARED["configs"]:
+            SHARED["configs"][key] = EnOptConfig.model_validate(cfg)
+        plan, step, cfg = SHARED["plan"], SHARED["step"], SHARED["configs"][key]
     else:
-        pm = PluginManager()
-    ctx = OptimizerContext(evaluator=evaluator, plugin_manager=pm)
-    ctx.add_observer(EventType.FINISHED_EVALUATION, finished)
-    plan = Plan(ctx)
-    step = plan.add_step("optimizer")
+        ctx = OptimizerContext(evaluator=evaluator, plugin_manager=PluginManager())
+        ctx.add_observer(EventType.FINISHED_EVALUATION, finished)
+        plan = Plan(ctx)
+        step = plan.add_step("optimizer")
     code, outcome = outcome_of(lambda: plan.run_step(step, config=cfg))
     h.update(str(code).encode())
     return h.hexdigest(), hp.hexdigest(), state["pert"] and not seedfree, outcome
